@@ -6,7 +6,8 @@ namespace TM.Driver.C03
 open TM TM.World
 
 def nChains : Nat := 3          -- real chains 0,1,2; chain 3 is a name without client
-def nAcct : Nat := 10         -- 0 user, 1 endpoint, 2 packet, 3 agent, 4 execute, 5 relayer, 6 7 receivers, 8 9 further senders
+def nAcct : Nat := 11   -- … 10 = the forwarder (batching) contract
+--         -- 0 user, 1 endpoint, 2 packet, 3 agent, 4 execute, 5 relayer, 6 7 receivers, 8 9 further senders
 def userNative : Nat := 100000000000000
 
 structure St where
@@ -36,7 +37,7 @@ def dump (st : St) (i : Nat) : String :=
   let seqsFrom (s : Nat) : List Nat := (List.range ((st.w.chains s).nextSeq i + 1)).filter (· ≠ 0)
   let bals := toks.flatMap fun t => accts.filterMap fun a =>
     if e.bal t a = 0 then none else some (kv ("b:" ++ toString t ++ "." ++ toString a) (e.bal t a))
-  let alws := toks.flatMap fun t => [3, 8, 9].filterMap fun a =>
+  let alws := toks.flatMap fun t => [3, 8, 9, 10].filterMap fun a =>
     if t = 0 ∨ e.allow t a = 0 then none else some (kv ("l:" ++ toString t ++ "." ++ toString a) (e.allow t a))
   let sups := toks.filterMap fun t => if t = 0 ∨ e.supply t = 0 then none else some (kv ("s:" ++ toString t) (e.supply t))
   let outs := toks.flatMap fun t => dsts.filterMap fun d =>
@@ -73,6 +74,18 @@ def parseCall (s : String) : Option Call :=
   | _ => none
 
 def nats (l : List String) : Option (List Nat) := l.mapM (·.toNat?)
+
+/-- a batch leg: `A,<tok>,<amt>` or `S,<dst>,<tok>,<amt>,<receiver>,<feeTok>,<feeAmt>,<call>` -/
+def parseLeg (s : String) : Option Leg :=
+  match s.splitOn "," with
+  | ["A", t, n] => do
+    let t ← t.toNat?; let n ← n.toNat?
+    pure (.approve t n)
+  | ["S", d, t, amt, rcv, ft, fa, call] => do
+    let d ← d.toNat?; let t ← t.toNat?; let amt ← amt.toNat?; let rcv ← rcv.toNat?; let ft ← ft.toNat?; let fa ← fa.toNat?
+    let call ← parseCall call
+    pure (.send { dst := d, token := t, amount := amt, receiver := rcv, call := call, feeToken := ft, feeAmount := fa, callback := false })
+  | _ => none
 
 def step (st : St) (line : String) : St × String :=
   match fields line with
@@ -121,6 +134,15 @@ def step (st : St) (line : String) : St × String :=
       | none => (st, "err " ++ dump st c)
       | some _ =>
         let st := { st with w := World.step st.fixed st.w (.send c snd a) }
+        (st, "ok " ++ dump st c)
+    | _, _ => (st, "bad-op")
+  | "batch" :: c :: snd :: strict :: legs =>
+    match nats [c, snd, strict], legs.mapM parseLeg with
+    | some [c, snd, strict], some legs =>
+      match World.batch (st.w.cfg c) c (st.w.chains c) snd (strict != 0) legs with
+      | none => (st, "err " ++ dump st c)
+      | some _ =>
+        let st := { st with w := World.step st.fixed st.w (.batch c snd (strict != 0) legs) }
         (st, "ok " ++ dump st c)
     | _, _ => (st, "bad-op")
   | "recv" :: s :: d :: q :: rest =>
